@@ -5,8 +5,8 @@ use crate::execution::{ExecutionConfig, SharedMemoryPool};
 use crate::physical::operators::{
     evaluate_expr, run_subquery_plan, AggregateExpr, ExternalSortExec, FilterExec,
     HashAggregateExec, HashJoinExec, LimitExec, MemoryTableExec, MorselAggregateExec, ProjectExec,
-    SortExec, SpillableHashAggregateExec, SpillableHashJoinExec, SubqueryExecutor, TableProvider,
-    UnionExec, VectorSearchExec,
+    RelabelExec, SortExec, SpillableHashAggregateExec, SpillableHashJoinExec, SubqueryExecutor,
+    TableProvider, UnionExec, VectorSearchExec,
 };
 use crate::physical::PhysicalOperator;
 use crate::planner::{BinaryOp, Expr, JoinType, LogicalPlan, PlanSchema};
@@ -750,6 +750,70 @@ impl PhysicalPlanner {
         }
     }
 
+    /// Expose `input`'s columns under the qualifier of the SubqueryAlias
+    /// `node`, as the alias's logical schema promises (`x.k` for `(...) AS x`).
+    ///
+    /// Execution resolves columns by physical field NAME. A scan bound under an
+    /// alias already names its fields `alias.col`, but a derived table or CTE
+    /// body produces whatever its own top node calls them (`k`, `t0.id`), and
+    /// the alias used to be a pure pass-through. Two references to one derived
+    /// table then gave a join identically named columns on both sides, and
+    /// `y.v` silently read `x`'s column (first name match).
+    ///
+    /// Only columns the alias declares are renamed. Optimizer rewrites can
+    /// leave extra internal columns under an alias (a decorrelated scalar
+    /// subquery joins its result in below it); those keep their names, and no
+    /// rename may duplicate a name the input already has.
+    fn qualify_with_alias(
+        input: Arc<dyn PhysicalOperator>,
+        node: &crate::planner::SubqueryAliasNode,
+    ) -> Arc<dyn PhysicalOperator> {
+        let input_schema = input.schema();
+        let inner_schema = node.input.schema();
+        let mut taken: std::collections::HashSet<String> = input_schema
+            .fields()
+            .iter()
+            .map(|f| f.name().clone())
+            .collect();
+        let mut renamed = false;
+
+        let names: Vec<String> = input_schema
+            .fields()
+            .iter()
+            .map(|field| {
+                let physical = field.name();
+                // Strip the qualifier the input itself put on the column. Only
+                // a relation the input really has counts: an expression's
+                // output name may contain dots of its own ("1.5").
+                let base = match physical.split_once('.') {
+                    Some((rel, col))
+                        if inner_schema
+                            .fields()
+                            .iter()
+                            .any(|f| f.relation.as_deref() == Some(rel)) =>
+                    {
+                        col
+                    }
+                    _ => physical.as_str(),
+                };
+                let declared = node.schema.fields().iter().any(|f| f.name == base);
+                let qualified = format!("{}.{}", node.alias, base);
+                if !declared || &qualified == physical || taken.contains(&qualified) {
+                    return physical.clone();
+                }
+                taken.insert(qualified.clone());
+                renamed = true;
+                qualified
+            })
+            .collect();
+
+        if renamed {
+            Arc::new(RelabelExec::new(input, names))
+        } else {
+            input
+        }
+    }
+
     /// Check if a plan subtree contains an Aggregate (looking through Project/SubqueryAlias).
     fn plan_contains_aggregate(plan: &LogicalPlan) -> bool {
         match plan {
@@ -1390,9 +1454,10 @@ impl PhysicalPlanner {
                         // The probe-side streaming scan may sit under column
                         // pass-through Projects (decorrelated subquery
                         // shapes); the filter column is resolved by NAME in
-                        // the provider schema, so digging through is safe.
+                        // the provider schema, so digging through is safe
+                        // (likewise the alias relabeling above such a Project).
                         let mut probe_leaf = Arc::clone(&right);
-                        while probe_leaf.name() == "Project" {
+                        while matches!(probe_leaf.name(), "Project" | "Relabel") {
                             let ch = probe_leaf.children();
                             if ch.len() != 1 {
                                 break;
@@ -1766,11 +1831,12 @@ impl PhysicalPlanner {
                             batches.clone(),
                             None,
                         );
-                        return Ok(Arc::new(exec));
+                        return Ok(Self::qualify_with_alias(Arc::new(exec), node));
                     }
                 }
-                // Not cached, pass through to input
-                self.create_physical_plan_inner(&node.input)
+                // Not cached: plan the input, exposed under the alias
+                let input = self.create_physical_plan_inner(&node.input)?;
+                Ok(Self::qualify_with_alias(input, node))
             }
 
             LogicalPlan::EmptyRelation(node) => {
